@@ -8,6 +8,7 @@ import (
 	"go/token"
 	"go/types"
 	"math"
+	"reflect"
 )
 
 func init() {
@@ -477,6 +478,9 @@ func singleReturn(b *ast.BlockStmt) *ast.ReturnStmt {
 }
 
 func containsNode(root ast.Node, target ast.Node) bool {
+	if root == nil || target == nil || reflect.ValueOf(root).IsNil() {
+		return false
+	}
 	found := false
 	ast.Inspect(root, func(n ast.Node) bool {
 		if n == target {
